@@ -229,11 +229,11 @@ def dot(arg1, arg2, axis1=-1, axis2=0, classes=(), recursive=True):
     # Re-shape the value arrays (shape, numer1, numer2, denom1, denom2)
     shape1 = (arg1._shape_ + arg1._numer_ + (arg2._nrank_ - 1) * (1,) +
               arg1._denom_ + arg2._drank_ * (1,))
-    array1 = arg1._values_.reshape(shape1)
+    array1 = np.reshape(arg1._values_, shape1)
 
     shape2 = (arg2._shape_ + (arg1._nrank_ - 1) * (1,) + arg2._numer_ +
               arg1._drank_ * (1,) + arg2._denom_)
-    array2 = arg2._values_.reshape(shape2)
+    array2 = np.reshape(arg2._values_, shape2)
     k2 += arg1._nrank_ - 1
 
     # Roll both array axes to the right
@@ -436,11 +436,11 @@ def cross(arg1, arg2, axis1=-1, axis2=0, classes=(), recursive=True):
     # Re-shape the value arrays (shape, numer1, numer2, denom1, denom2)
     shape1 = (arg1._shape_ + arg1._numer_ + (arg2._nrank_ - 1) * (1,) +
               arg1._denom_ + arg2._drank_ * (1,))
-    array1 = arg1._values_.reshape(shape1)
+    array1 = np.reshape(arg1._values_, shape1)
 
     shape2 = (arg2._shape_ + (arg1._nrank_ - 1) * (1,) + arg2._numer_ +
               arg1._drank_ * (1,) + arg2._denom_)
-    array2 = arg2._values_.reshape(shape2)
+    array2 = np.reshape(arg2._values_, shape2)
     k2 += arg1._nrank_ - 1
 
     # Roll both array axes to the right
@@ -545,11 +545,11 @@ def outer(arg1, arg2, classes=(), recursive=True):
     # Re-shape the value arrays (shape, numer1, numer2, denom1, denom2)
     shape1 = (arg1._shape_ + arg1._numer_ + arg2._nrank_ * (1,) +
               arg1._denom_ + arg2._drank_ * (1,))
-    array1 = arg1._values_.reshape(shape1)
+    array1 = np.reshape(arg1._values_, shape1)
 
     shape2 = (arg2._shape_ + arg1._nrank_ * (1,) + arg2._numer_ +
               arg1._drank_ * (1,) + arg2._denom_)
-    array2 = arg2._values_.reshape(shape2)
+    array2 = np.reshape(arg2._values_, shape2)
 
     # Construct the outer product
     new_values = array1 * array2
